@@ -6,7 +6,7 @@ From Helm Require Import Common.Assoc Engine.Types Engine.Eff Engine.Ops Engine.
                          Engine.OwnershipConfine Engine.OwnershipStamped Engine.OwnershipLookup
                          Engine.MatchDefs Engine.Stamp Engine.StampProofs Engine.StampWorld
                          Engine.OwnershipFrame Engine.OwnershipOnlyIf Engine.OwnershipNs Engine.OwnershipReq
-                         Engine.StampTableSem Gen.StampTable.
+                         Engine.StampTableSem Gen.StampTable Engine.OwnershipRace Engine.OwnershipRaceProofs.
 Import ListNotations.
 Local Open Scope string_scope.
 
@@ -601,6 +601,82 @@ Example C07_preflight_example :
   run [("ConfigMap/b", [("d:k", "live")])] = [TKube (KCall "existing" [(VGet, "ConfigMap/a"); (VGet, "ConfigMap/b")])].
 Proof. exact preflight_example. Qed.
 Print Assumptions C07_preflight_example.
+
+(* ---- check-to-create races: another actor creates an object in the middle of an operation ---- *)
+
+(* [run_store_op_i rn ns i] runs an operation against the cluster handler of Engine/OwnershipRace.v:
+   the handler of Engine/Cluster.v in which the intruder [i] makes a foreign object appear at a key
+   right after the n-th GET of that key answered "not found" or just before the first POST creating
+   it; the POST then answers "already exists" (createResource returns the error).  Without an
+   intruder it is the plain handler, so every theorem above is about its race-free runs. *)
+Theorem C07_no_intruder_is_plain :
+  forall (rn ns : string) (c : opcase) (w : world),
+    run_store_op_i rn ns None c w = run_store_op rn ns c w.
+Proof. exact run_store_op_i_none. Qed.
+Print Assumptions C07_no_intruder_is_plain.
+
+(* per call, Client.Create: the foreign object f is at K when the call starts and nobody else
+   comes (landed), or it appears just before the POST of K (at_post).  Then the call fails when it
+   names K, the object is exactly f afterwards, and the call logs no mutation of K *)
+Theorem C07_create_race_call :
+  forall (K : string) (f : fields) (rs : list res) (s : kstate_i),
+    ((ki_intr s = None /\ aget K (objs (ki_k s)) = Some f /\ kfault (ki_k s) = None) \/
+     (ki_intr s = Some (mkIntr K IPost f) /\ aget K (objs (ki_k s)) = None /\ kfault (ki_k s) = None)) ->
+    In K (map rkey rs) ->
+    snd (fst (k_create_i s rs true [])) = false /\
+    aget K (objs (ki_k (fst (fst (k_create_i s rs true []))))) = Some f /\
+    (forall v, ~ In (v, K) (snd (k_create_i s rs true []))).
+Proof. exact create_race_call. Qed.
+Print Assumptions C07_create_race_call.
+
+(* whole operation.  A fresh install (no stored revision, nothing at any key of the manifest; not
+   a dry run, not client-only, not --atomic, hooks disabled; take-ownership and --replace: any).
+   Another actor creates f — any object — at the key K of a manifest resource right after the
+   pre-flight GET of K was answered "not found", or just before Helm's POST of K.  Then the
+   install ends in an error, its revision is recorded and ends FAILED, the object is exactly f
+   and no request of Helm created, patched or deleted anything at K. *)
+Theorem C07_create_race_refused :
+  forall (rn ns : string) (fl : flags) (cid vid : nat) (mani : list res) (hks : list hook)
+         (K : string) (f : fields) (when : iwhen) (w : world),
+    f_dry_run fl = false -> f_client_only fl = false -> f_atomic fl = false -> f_no_hooks fl = true ->
+    w_led w = [] -> (forall r, In r mani -> aget (rkey r) (w_objs w) = None) ->
+    NoDup (map rkey mani) -> In K (map rkey mani) ->
+    when = IGet404 1 \/ when = IPost ->
+    let res := run_store_op_i rn ns (Some (mkIntr K when f))
+                 (mkOp (OpInstall fl cid vid mani hks) (mkSF None None) (mkCF None None false)) w in
+    snd (fst res) = OErr EOtherErr /\
+    w_led (fst (fst res)) = [mkRelease 1 SFailed cid vid mani hks] /\
+    aget K (w_objs (fst (fst res))) = Some f /\
+    (forall v, ~ In (v, K) (trace_muts (snd res))).
+Proof. exact create_race_refused. Qed.
+Print Assumptions C07_create_race_refused.
+
+(* the hypothesis "not --atomic" (for upgrade / rollback also "not --cleanup-on-fail") is NEEDED:
+   witnesses of the faithful model, replayed on the real code by the corpus — known findings
+   K-C07-1a..d (the failure clean-up deletes by manifest key an object Helm neither created nor
+   owns).  Also the non-vacuity of C07_create_race_refused (second conjunct) and the race of an
+   upgrade between Client.update's GET and its POST (failed revision, previous one still deployed,
+   object untouched) *)
+Theorem C07_create_race_cleanup_refuted :
+  let cm n := mkRes "ConfigMap" n [("d:k", "v")] in
+  let foreign := [("d:k", "intruder")] in
+  let fl atm cl := mkFlags atm cl false false 0 true false false false 0 in
+  let noF := mkSF None None in let noC := mkCF None None false in
+  let i n := Some (mkIntr "ConfigMap/a" (IGet404 n) foreign) in
+  (let r := run_store_op_i "rel" "default" (i 1) (mkOp (OpInstall (fl true false) 1 1 [cm "a"; cm "b"] []) noF noC) (mkW [] []) in
+   snd (fst r) = OErr EOtherErr /\ aget "ConfigMap/a" (w_objs (fst (fst r))) = None /\
+   In (VDelete, "ConfigMap/a") (trace_muts (snd r))) /\
+  (let r := run_store_op_i "rel" "default" (i 1) (mkOp (OpInstall (fl false false) 1 1 [cm "a"; cm "b"] []) noF noC) (mkW [] []) in
+   snd (fst r) = OErr EOtherErr /\ aget "ConfigMap/a" (w_objs (fst (fst r))) = Some foreign /\
+   map st (w_led (fst (fst r))) = [SFailed]) /\
+  (let w1 := fst (fst (run_store_op "rel" "default" (mkOp (OpInstall (fl false false) 1 1 [cm "base"] []) noF noC) (mkW [] []))) in
+   let up atm cl := run_store_op_i "rel" "default" (i 2) (mkOp (OpUpgrade (fl atm cl) 2 1 [cm "base"; cm "a"] []) noF noC) w1 in
+   snd (fst (up false false)) = OErr EOtherErr /\ aget "ConfigMap/a" (w_objs (fst (fst (up false false)))) = Some foreign /\
+   map st (w_led (fst (fst (up false false)))) = [SDeployed; SFailed] /\
+   aget "ConfigMap/a" (w_objs (fst (fst (up false true)))) = None /\
+   aget "ConfigMap/a" (w_objs (fst (fst (up true false)))) = None).
+Proof. exact create_race_cleanup_refuted. Qed.
+Print Assumptions C07_create_race_cleanup_refuted.
 
 (* ---- non-vacuity ---- *)
 
